@@ -158,6 +158,8 @@ def worker_main(argv):
         harness.cleanup()
     res = ctx.dump()
     res["reach"] = harness.reach_counts()
+    if os.environ.get("BVMON_COVERAGE"):
+        res["cov"] = harness.coverage_lines()
     res["wall_s"] = time.time() - t0
     with open(out, "w") as f:
         json.dump(res, f, default=str)
@@ -211,6 +213,13 @@ def driver_main(prop, tier, seed, replay=None, nshards=None):
 
     merged = {"evaluations": 0, "nt_extra": 0, "nt": set(), "samples": [], "viol": {}, "counters": collections.Counter(),
               "reach": collections.Counter()}
+    cov = set()
+    for r in results:
+        cov.update(tuple(x) for x in r.get("cov", []))
+    if os.environ.get("BVMON_COVERAGE"):
+        os.makedirs(os.path.join(VERIF, ".build", "cov"), exist_ok=True)
+        with open(os.path.join(VERIF, ".build", "cov", f"{prop}.json"), "w") as f:
+            json.dump(sorted(cov), f)
     for r in results:
         merged["evaluations"] += r["evaluations"]
         merged["nt"].update(r["nt"])
